@@ -98,10 +98,11 @@ def do_unroll(ctx, tx, cid, spec, NS):
     ctx.sample({"case": cid, "circuit": spec, "pairings": ps[:2]})
     ios = sorted(A.inputs() | A.outputs())
     for state_io in ps:
+        state_io_obj = dict(state_io)  # ONE dict object for all n, as a caller who loops over n passes it
         for n in NS:
             det = {"case": cid, "circuit": spec if len(spec["nodes"]) < 25 else None, "state_io": state_io, "n": n}
             carg = build(spec)
-            res, e = call(tx.unroll, carg, n, dict(state_io))
+            res, e = call(tx.unroll, carg, n, state_io_obj)
             ctx.unchanged("unroll", carg, spec)
             if e is not None:
                 ctx.side("unroll-raises", False, f"unroll:raises:{type(e).__name__}", f"unroll raised {e!r}", det)
@@ -176,10 +177,11 @@ def do_seq(ctx, tx, cid, p, NS):
         init = {f: "x01"[i % 3] for i, f in enumerate(flops)}
     ctx.sample({"case": cid, "circuit": spec})
     shared = build(spec)  # the SAME circuit object is unrolled for every n (a call must not disturb the next one)
+    init_obj = dict(init) if isinstance(init, dict) else init  # likewise ONE initial_values / ignore_pins object for every n
+    ign_obj = list(clkpins) if ign else None
     for n in NS:
         det = {"case": cid, "circuit": spec, "n": n, "add_flop_outputs": afo, "initial_values": init, "remove_unloaded": ru, "ignore_pins": clkpins if ign else None}
-        res, e = call(tx.sequential_unroll, shared, n, dport, qport, ignore_pins=(clkpins if ign else None), add_flop_outputs=afo,
-                      initial_values=(dict(init) if isinstance(init, dict) else init), remove_unloaded=ru)
+        res, e = call(tx.sequential_unroll, shared, n, dport, qport, ignore_pins=ign_obj, add_flop_outputs=afo, initial_values=init_obj, remove_unloaded=ru)
         ctx.unchanged("sequential_unroll", shared, spec)
         if e is not None:
             ctx.side("sequnroll-raises", False, f"sequential_unroll:raises:{type(e).__name__}", f"sequential_unroll raised {e!r}", det)
